@@ -608,6 +608,15 @@ def crun (stepf : CWorld → COp → CWorld × Except CErr CRes) (w : CWorld) : 
   | [] => w
   | op :: ops => crun stepf (stepf w op).1 ops
 
+/-- decidable form of "different entries share no container object and all identities are below
+the counter" (the invariant `CInv` of `Props/C20.lean`) -/
+def pairwiseDisjB : List Cfg → Bool
+  | [] => true
+  | a :: t => t.all (fun b => a.locs.all (fun l => !(b.locs.contains l))) && pairwiseDisjB t
+
+def cinvB (w : CWorld) : Bool :=
+  pairwiseDisjB w.cfgs && w.cfgs.all (fun a => a.locs.all (fun l => decide (l < w.next)))
+
 /-! ### the methods of `Config`, line by line -/
 
 /-- the key codes the methods use -/
@@ -673,6 +682,12 @@ def removeFirst (x : Nat) : List Nat → List Nat
   | [] => []
   | y :: t => if y = x then t else y :: removeFirst x t
 
+/-- `if cur in sys.path: sys.path.remove(cur)` (a container is never an entry of `sys.path`) -/
+def sysRemove (cur : CRes) (sp : List Nat) : List Nat :=
+  match cur with
+  | .val v => removeFirst v sp
+  | _ => sp
+
 /-- one method call through configuration `j` -/
 def cmethod (stepf : CWorld → COp → CWorld × Except CErr CRes) (K : Keys) (E : Ext) (w : CWorld) (j : Nat) :
     Method → CWorld × Except CErr CRes
@@ -689,7 +704,7 @@ def cmethod (stepf : CWorld → COp → CWorld × Except CErr CRes) (K : Keys) (
           | .error e => (w, .error e)
           | .ok cur =>
               -- `if cur in sys.path: sys.path.remove(cur)`
-              let sp := match cur with | .val v => removeFirst v w.syspath | _ => w.syspath
+              let sp := sysRemove cur w.syspath
               let w1 := { w with syspath := sp }
               -- `wd = os.path.abspath(path)`
               match onVal (match path with | some p => .val p | none => cur) E.abspath with
